@@ -38,6 +38,7 @@ SPEC = dict(
               "skrifa/src/outline/glyf/hint/instance.rs: HintInstance fields, setup, reconfigure, hint receiver (extracted table drives the model)",
               "skrifa/src/outline/glyf/hint/engine/dispatch.rs: Engine::reset / run_program; hint/definition.rs: DefinitionMap::reset, DefinitionState::new (extracted)",
               "skrifa/src/outline/hint.rs: HintingInstance::reconfigure (hand model driven by the extracted field table and reuse patterns)",
+              "skrifa/src/outline/hint.rs Engine::Auto arm + outline/autohint/instance.rs Instance::{fields, new} + autohint/metrics/mod.rs UnscaledStyleMetricsSet (extracted: the replaced autohinter instance / its lazily filled per-(font, location) metrics cache never reaches the new one; cache model auto_get/auto_draw_all)",
               "skrifa/src/instance.rs: LocationRef::is_default, effective_coords",
               "skrifa/src/outline/path.rs: to_path, contour_to_path, PendingState::emit/finish"],
     not_covered=["TrueType bytecode interpreter, CFF/CFF2 hinter, autohinter (incl. its lazily computed, RwLock-shared style metrics): abstract in the proofs; "
